@@ -68,12 +68,13 @@ def selfvalidate(rep, pid):
         with cf.ThreadPoolExecutor(min(16, os.cpu_count() or 4)) as ex:
             sres = list(ex.map(selftest.run_seed, seeds))
         rep.analysed["seeded_changes"] = len(sres)
-        rep.analysed["seeded_changes_detected"] = sum(1 for r in sres if r["ok"])
+        rep.analysed["seeded_changes_detected"] = sum(1 for r in sres if r["ok"] is True)
         rep.analysed["seeded_changes_stale"] = sum(1 for r in sres if r["ok"] is None)
+        rep.analysed["seeded_changes_declined_numeric"] = sum(1 for r in sres if r["ok"] == "declined")
         for r in sres:
             if r["ok"] is False:
                 rep.error(f"seeded change {r['name']} is not detected by the check of its property ({r['got']})")
-            elif r["ok"] is None:
+            elif r["ok"] is None or r["ok"] == "declined":
                 rep.note(f"seeded change {r['name']}: {r['got']}")
         print(f"[{pid}] seeded changes: {len(sres)}, detected {rep.analysed['seeded_changes_detected']}, stale {rep.analysed['seeded_changes_stale']}")
 
